@@ -1,12 +1,807 @@
-//! C03 — not built yet (stub; see DESIGN.md §5).
-use crate::ctx::Tier;
-use serde_json::Value;
+//! C03 — every request gets exactly one matching response; notifies get none.
+//! Pipelines of request "letters" are sent to the real servers on five
+//! dispatch paths (blocking TCP, async TCP, async over memstream, WebSocket
+//! inline, WebSocket off-reader routes); everything that comes back, and every
+//! handler invocation counter, is compared with a reference model.
 
-pub fn run(_tier: Tier) -> ! {
-    eprintln!("MACHINERY-ERROR property=C03 check not built yet");
-    std::process::exit(2)
+use crate::ctx::{Ctx, Samples, Tier};
+use crate::frames::{self, FMT_BEVE, FMT_JSON, FMT_RAW, FMT_UTF8, Frame, Hdr};
+use crate::memstream;
+use crate::wsh::{self, Got, Serve};
+use repe::{CallContext, ErrorCode, Message, MessageView, RepeError, Router};
+use serde::{Deserialize, Serialize};
+use serde_json::{Value, json};
+use std::collections::BTreeMap;
+use std::io::{Read, Write};
+use std::sync::Arc;
+use std::sync::atomic::{AtomicU64, Ordering};
+use std::time::Duration;
+
+// ------------------------------------------------------------------ routes
+
+#[derive(Default)]
+pub struct Counters {
+    pub by_route: BTreeMap<&'static str, AtomicU64>,
+    pub middleware: AtomicU64,
 }
 
-pub fn replay(_case: &Value) -> Result<(), String> {
-    Err("no replay for C03 yet".into())
+const ROUTES: [&str; 13] = [
+    "json", "typed", "jsonctx", "typedctx", "jth", "slice", "sliceref", "regfn", "structfn", "custom",
+    "jsonb", "typedb", "jsonctxb",
+];
+
+impl Counters {
+    fn new() -> Arc<Counters> {
+        let mut c = Counters::default();
+        for r in ROUTES {
+            c.by_route.insert(r, AtomicU64::new(0));
+        }
+        Arc::new(c)
+    }
+    fn hit(&self, r: &'static str) {
+        self.by_route[r].fetch_add(1, Ordering::SeqCst);
+    }
+    fn snapshot(&self) -> BTreeMap<&'static str, u64> {
+        let mut m: BTreeMap<&'static str, u64> =
+            self.by_route.iter().map(|(k, v)| (*k, v.load(Ordering::SeqCst))).collect();
+        m.insert("middleware", self.middleware.load(Ordering::SeqCst));
+        m
+    }
 }
+
+#[derive(Deserialize)]
+struct TypedIn {
+    a: i64,
+}
+#[derive(Serialize)]
+struct TypedOut {
+    twice: i64,
+}
+
+struct Jth(Arc<Counters>);
+impl repe::JsonTypedHandler for Jth {
+    type In = TypedIn;
+    type Out = TypedOut;
+    fn call(&self, input: TypedIn) -> Result<TypedOut, (ErrorCode, String)> {
+        self.0.hit("jth");
+        Ok(TypedOut { twice: input.a * 2 })
+    }
+}
+
+/// Custom erased handler that chooses its own response query.
+struct Custom(Arc<Counters>);
+impl repe::server::HandlerErased for Custom {
+    fn handle(&self, req: &Message) -> Result<Message, RepeError> {
+        self.0.hit("custom");
+        Ok(Message::builder()
+            .id(req.header.id)
+            .query_str("/own")
+            .body_bytes(b"\"custom\"".to_vec())
+            .body_format(repe::BodyFormat::Json)
+            .build())
+    }
+}
+
+#[derive(Default, Serialize, Deserialize, repe::RepeStruct)]
+#[repe(methods(bump(&mut self) -> i32))]
+struct Svc {
+    n: i32,
+    #[serde(skip)]
+    #[repe(skip)]
+    counters: Option<Arc<Counters>>,
+}
+impl Svc {
+    fn bump(&mut self) -> i32 {
+        if let Some(c) = &self.counters {
+            c.hit("structfn");
+        }
+        self.n += 1;
+        7
+    }
+}
+
+struct CountMw(Arc<Counters>);
+impl repe::Middleware for CountMw {
+    fn handle(&self, req: &Message, next: repe::Next<'_>) -> Result<Message, RepeError> {
+        self.0.middleware.fetch_add(1, Ordering::SeqCst);
+        next.run(req)
+    }
+}
+
+fn app_err() -> (ErrorCode, String) {
+    (ErrorCode::ApplicationErrorBase, "boom".to_string())
+}
+
+pub fn build_router(c: &Arc<Counters>) -> Router {
+    let registry = Arc::new(repe::Registry::new());
+    registry.register_value("/val", json!(41)).unwrap();
+    {
+        let c = c.clone();
+        registry
+            .register_function("/fn", move |p: Option<Value>| -> Result<Value, (ErrorCode, String)> {
+                c.hit("regfn");
+                Ok(json!({"called": p}))
+            })
+            .unwrap();
+    }
+    let c1 = c.clone();
+    let c2 = c.clone();
+    let c3 = c.clone();
+    let c4 = c.clone();
+    let c5 = c.clone();
+    let c6 = c.clone();
+    let c7 = c.clone();
+    let c8 = c.clone();
+    let c9 = c.clone();
+    let json_fn = move |v: Value| -> Result<Value, (ErrorCode, String)> {
+        c1.hit("json");
+        if v == json!("fail") { Err(app_err()) } else { Ok(json!({"echo": v})) }
+    };
+    let router = Router::new()
+        .with_middleware(CountMw(c.clone()))
+        .with_json("/json", json_fn)
+        .with_typed::<TypedIn, TypedOut, _>("/typed", move |t: TypedIn| {
+            c2.hit("typed");
+            if t.a == -1 { Err(app_err()) } else { Ok(TypedOut { twice: t.a * 2 }) }
+        })
+        .with_json_ctx("/jsonctx", move |_ctx: &CallContext, v: Value| {
+            c3.hit("jsonctx");
+            Ok(json!({"ctx": v}))
+        })
+        .with_typed_ctx::<TypedIn, TypedOut, _>("/typedctx", move |_ctx: &CallContext, t: TypedIn| {
+            c4.hit("typedctx");
+            Ok(TypedOut { twice: t.a * 2 })
+        })
+        .with_handler("/jth", Jth(c.clone()))
+        .with_typed_slice::<f64, f64, _>("/slice", move |xs: Vec<f64>| {
+            c5.hit("slice");
+            Ok(xs.iter().map(|x| x * 2.0).collect::<Vec<f64>>())
+        })
+        .with_typed_slice_ref::<f64, f64, _>("/sliceref", move |xs| {
+            c6.hit("sliceref");
+            Ok(xs.iter().map(|x| x + 1.0).collect::<Vec<f64>>())
+        })
+        .with_registry("/reg", registry)
+        .with_erased_handler("/custom", Arc::new(Custom(c.clone())))
+        .with_json_blocking("/jsonb", move |v: Value| {
+            c7.hit("jsonb");
+            if v == json!("fail") { Err(app_err()) } else { Ok(json!({"b": v})) }
+        })
+        .with_typed_blocking::<TypedIn, TypedOut, _>("/typedb", move |t: TypedIn| {
+            c8.hit("typedb");
+            Ok(TypedOut { twice: t.a * 2 })
+        })
+        .with_json_ctx_blocking("/jsonctxb", move |_ctx: &CallContext, v: Value| {
+            c9.hit("jsonctxb");
+            Ok(json!({"cb": v}))
+        });
+    let (router, _shared) = router.with_struct("/st", Svc { n: 0, counters: Some(c.clone()) });
+    router
+}
+
+// ------------------------------------------------------------------ letters
+
+#[derive(Clone, Debug)]
+pub struct Letter {
+    pub name: &'static str,
+    pub path: Vec<u8>,
+    pub version: u8,
+    pub qf: u16,
+    pub bf: u16,
+    pub body: Vec<u8>,
+    pub notify: bool,
+    /// expected error code of the response; None = any non-zero code
+    pub ec: Option<u32>,
+    /// expected response body (None = not predicted, only compared across paths)
+    pub resp_body: Option<Vec<u8>>,
+    /// expected response query; None = the request's query
+    pub resp_query: Option<Vec<u8>>,
+    /// user-level handler expected to run exactly once (None = none may run)
+    pub runs: Option<&'static str>,
+    /// reaches a handler (so the middleware runs once)
+    pub dispatched: bool,
+    /// handled off the reader on the WebSocket path
+    pub off_reader: bool,
+}
+
+fn l(name: &'static str, path: &str, bf: u16, body: &[u8]) -> Letter {
+    Letter {
+        name,
+        path: path.as_bytes().to_vec(),
+        version: 1,
+        qf: 1,
+        bf,
+        body: body.to_vec(),
+        notify: false,
+        ec: Some(0),
+        resp_body: None,
+        resp_query: None,
+        runs: None,
+        dispatched: true,
+        off_reader: false,
+    }
+}
+
+impl Letter {
+    fn ok(mut self, runs: &'static str, body: Value) -> Self {
+        self.runs = Some(runs);
+        self.resp_body = Some(serde_json::to_vec(&body).unwrap());
+        self
+    }
+    fn ok_raw(mut self, runs: &'static str, body: Vec<u8>) -> Self {
+        self.runs = Some(runs);
+        self.resp_body = Some(body);
+        self
+    }
+    fn err(mut self, code: u32) -> Self {
+        self.ec = Some(code);
+        self
+    }
+    fn any_err(mut self) -> Self {
+        self.ec = None;
+        self
+    }
+    fn ran(mut self, r: &'static str) -> Self {
+        self.runs = Some(r);
+        self
+    }
+    fn rejected(mut self) -> Self {
+        self.dispatched = false;
+        self
+    }
+    fn off(mut self) -> Self {
+        self.off_reader = true;
+        self
+    }
+    fn as_notify(mut self, name: &'static str) -> Self {
+        self.name = name;
+        self.notify = true;
+        self
+    }
+    pub fn frame(&self, id: u64) -> Frame {
+        let h = Hdr {
+            version: self.version,
+            notify: self.notify as u8,
+            id,
+            query_format: self.qf,
+            body_format: self.bf,
+            ..Default::default()
+        };
+        Frame::new(h, &self.path, &self.body)
+    }
+}
+
+fn typed_slice_body(xs: &[f64]) -> Vec<u8> {
+    Message::builder().body_typed_slice(xs).build().body
+}
+
+pub fn alphabet() -> Vec<Letter> {
+    let beve_a1 = beve::to_vec(&json!({"a": 1})).unwrap();
+    let mut v = vec![
+        l("json/ok", "/json", FMT_JSON, br#"{"a":1}"#).ok("json", json!({"echo": {"a": 1}})),
+        l("json/beve-body", "/json", FMT_BEVE, &beve_a1).ok("json", json!({"echo": {"a": 1}})),
+        l("json/utf8-body", "/json", FMT_UTF8, b"[1,2]").ok("json", json!({"echo": [1, 2]})),
+        l("json/raw-format", "/json", FMT_RAW, br#"{"a":1}"#).err(4),
+        l("json/unknown-format", "/json", 9, br#"{"a":1}"#).err(4),
+        l("json/malformed-body", "/json", FMT_JSON, br#"{"a":"#).err(5),
+        l("json/empty-body", "/json", FMT_JSON, b"").err(5),
+        l("json/handler-error", "/json", FMT_JSON, br#""fail""#).err(4096).ran("json"),
+        l("version/0", "/json", FMT_JSON, b"1").err(1).rejected(),
+        l("version/2", "/json", FMT_JSON, b"1").err(1).rejected(),
+        l("query/raw-format", "/json", FMT_JSON, b"1").err(3).rejected(),
+        l("query/unknown-format", "/json", FMT_JSON, b"1").err(3).rejected(),
+        l("query/not-utf8", "/json", FMT_JSON, b"1").err(3).rejected(),
+        l("path/unknown", "/nope", FMT_JSON, b"1").err(6).rejected(),
+        l("version/0+unknown-path", "/nope", FMT_JSON, b"1").err(1).rejected(),
+        l("query/raw-format+unknown-path", "/nope", FMT_JSON, b"1").err(3).rejected(),
+        l("path/empty", "", FMT_JSON, b"1").err(6).rejected(),
+        l("path/prefix-no-boundary", "/jsonx", FMT_JSON, b"1").err(6).rejected(),
+        l("typed/ok", "/typed", FMT_JSON, br#"{"a":21}"#).ok("typed", json!({"twice": 42})),
+        l("typed/wrong-shape", "/typed", FMT_JSON, br#"{"x":1}"#).any_err(),
+        l("typed/handler-error", "/typed", FMT_JSON, br#"{"a":-1}"#).err(4096).ran("typed"),
+        l("typed/raw-format", "/typed", FMT_RAW, br#"{"a":1}"#).err(4),
+        l("jsonctx/ok", "/jsonctx", FMT_JSON, b"3").ok("jsonctx", json!({"ctx": 3})),
+        l("typedctx/ok", "/typedctx", FMT_JSON, br#"{"a":5}"#).ok("typedctx", json!({"twice": 10})),
+        l("jth/ok", "/jth", FMT_JSON, br#"{"a":4}"#).ok("jth", json!({"twice": 8})),
+        l("jth/malformed", "/jth", FMT_JSON, b"{").err(5),
+        l("slice/ok", "/slice", FMT_BEVE, &typed_slice_body(&[1.0, 2.5])).ok_raw("slice", typed_slice_body(&[2.0, 5.0])),
+        l("slice/json-format", "/slice", FMT_JSON, b"[1.0]").any_err(),
+        l("sliceref/ok", "/sliceref", FMT_BEVE, &typed_slice_body(&[1.0, 2.0, 3.0])).ok_raw("sliceref", typed_slice_body(&[2.0, 3.0, 4.0])),
+        l("registry/read", "/reg/val", FMT_JSON, b"").ok_raw("", b"41".to_vec()),
+        l("registry/write", "/reg/w", FMT_JSON, b"5").any_ok(),
+        l("registry/call", "/reg/fn", FMT_JSON, b"[1]").ok("regfn", json!({"called": [1]})),
+        l("registry/missing", "/reg/none/x", FMT_JSON, b"").err(6),
+        l("registry/unknown-format", "/reg/val", 9, b"1").err(4),
+        l("struct/call", "/st/bump", FMT_JSON, b"").ok("structfn", json!(7)),
+        l("struct/missing", "/st/nope", FMT_JSON, b"").any_err(),
+        l("custom/own-query", "/custom", FMT_JSON, b"1").ok("custom", json!("custom")),
+        l("jsonb/ok", "/jsonb", FMT_JSON, b"9").ok("jsonb", json!({"b": 9})).off(),
+        l("jsonb/handler-error", "/jsonb", FMT_JSON, br#""fail""#).err(4096).ran("jsonb").off(),
+        l("jsonb/malformed", "/jsonb", FMT_JSON, b"[").err(5).off(),
+        l("typedb/ok", "/typedb", FMT_JSON, br#"{"a":1}"#).ok("typedb", json!({"twice": 2})).off(),
+        l("jsonctxb/ok", "/jsonctxb", FMT_JSON, b"2").ok("jsonctxb", json!({"cb": 2})).off(),
+    ];
+    // envelope tweaks that cannot be expressed through `l`
+    for x in v.iter_mut() {
+        match x.name {
+            "version/0" | "version/0+unknown-path" => x.version = 0,
+            "query/raw-format+unknown-path" => x.qf = 0,
+            "version/2" => x.version = 2,
+            "query/raw-format" => x.qf = 0,
+            "query/unknown-format" => x.qf = 7,
+            "query/not-utf8" => x.path = vec![b'/', 0xff, 0xfe],
+            "registry/read" => x.runs = None,
+            "custom/own-query" => x.resp_query = Some(b"/own".to_vec()),
+            _ => {}
+        }
+    }
+    // notify twins: no response whatever the outcome; handler effects identical
+    let pick = |name: &str| v.iter().find(|x| x.name == name).unwrap().clone();
+    let notifies = vec![
+        pick("json/ok").as_notify("notify/json/ok"),
+        pick("json/malformed-body").as_notify("notify/json/malformed"),
+        pick("json/handler-error").as_notify("notify/json/handler-error"),
+        pick("version/0").as_notify("notify/version/0"),
+        pick("query/not-utf8").as_notify("notify/query/not-utf8"),
+        pick("path/unknown").as_notify("notify/path/unknown"),
+        pick("custom/own-query").as_notify("notify/custom"),
+        pick("registry/call").as_notify("notify/registry/call"),
+        pick("jsonb/ok").as_notify("notify/jsonb/ok"),
+        pick("struct/call").as_notify("notify/struct/call"),
+    ];
+    v.extend(notifies);
+    v
+}
+
+impl Letter {
+    fn any_ok(mut self) -> Self {
+        self.ec = Some(0);
+        self.resp_body = None;
+        self
+    }
+}
+
+// ------------------------------------------------------------------ dispatch paths
+
+#[derive(Clone, Copy, Debug, PartialEq, Eq, PartialOrd, Ord)]
+pub enum PathKind {
+    BlockingTcp,
+    AsyncTcp,
+    AsyncMem,
+    WebSocket,
+}
+
+impl PathKind {
+    pub fn name(self) -> &'static str {
+        match self {
+            PathKind::BlockingTcp => "blocking-tcp",
+            PathKind::AsyncTcp => "async-tcp",
+            PathKind::AsyncMem => "async-mem",
+            PathKind::WebSocket => "websocket",
+        }
+    }
+}
+
+pub struct Endpoint {
+    kind: PathKind,
+    counters: Arc<Counters>,
+    addr: Option<std::net::SocketAddr>,
+    rt: Option<tokio::runtime::Runtime>,
+    mem_tx: Option<tokio::sync::mpsc::UnboundedSender<Box<dyn repe::verif_io::Io>>>,
+    shared: Option<repe::SharedWebSocketServer>,
+    _server: Option<repe::Server>,
+}
+
+static NEXT_SLOT: AtomicU64 = AtomicU64::new(100);
+
+impl Endpoint {
+    pub fn start(kind: PathKind) -> Endpoint {
+        let counters = Counters::new();
+        let router = build_router(&counters);
+        let mut ep = Endpoint { kind, counters, addr: None, rt: None, mem_tx: None, shared: None, _server: None };
+        match kind {
+            PathKind::BlockingTcp => {
+                let server = repe::Server::new(router);
+                let listener = server.listen("127.0.0.1:0").expect("listen");
+                ep.addr = Some(listener.local_addr().unwrap());
+                std::thread::spawn(move || {
+                    let _ = server.serve(listener);
+                });
+            }
+            PathKind::AsyncTcp => {
+                let rt = tokio::runtime::Builder::new_multi_thread().worker_threads(2).enable_all().build().unwrap();
+                let listener = rt.block_on(repe::AsyncServer::listen("127.0.0.1:0")).expect("listen");
+                ep.addr = Some(listener.local_addr().unwrap());
+                rt.spawn(async move {
+                    let _ = repe::AsyncServer::new(router).serve(listener).await;
+                });
+                ep.rt = Some(rt);
+            }
+            PathKind::AsyncMem => {
+                let rt = tokio::runtime::Builder::new_current_thread().enable_time().start_paused(true).build().unwrap();
+                let slot = NEXT_SLOT.fetch_add(1, Ordering::SeqCst) as u16;
+                let tx = repe::verif_io::register_listener(slot);
+                let listener = rt.block_on(repe::AsyncServer::listen(("127.254.77.1", slot))).expect("mem listen");
+                rt.spawn(async move {
+                    let _ = repe::AsyncServer::new(router).serve(listener).await;
+                });
+                ep.mem_tx = Some(tx);
+                ep.rt = Some(rt);
+            }
+            PathKind::WebSocket => {
+                let rt = tokio::runtime::Builder::new_current_thread().enable_time().build().unwrap();
+                // no off-reader cap here: saturation (ResourceExhausted at the cap) is C16's subject
+                ep.shared = Some(repe::WebSocketServer::new(router).with_offreader_limit(0).into_shared());
+                ep.rt = Some(rt);
+            }
+        }
+        ep
+    }
+
+    /// Send the pipeline, collect every frame that comes back.
+    /// `expect_n` = number of responses the model predicts (used on the
+    /// WebSocket path to know when to close).
+    pub fn exchange(&self, frames_out: &[Frame], expect_n: usize) -> Result<Vec<Frame>, String> {
+        let mut wire = Vec::new();
+        for f in frames_out {
+            wire.extend_from_slice(&f.to_bytes());
+        }
+        match self.kind {
+            PathKind::BlockingTcp | PathKind::AsyncTcp => {
+                let mut s = std::net::TcpStream::connect(self.addr.unwrap()).map_err(|e| e.to_string())?;
+                s.set_read_timeout(Some(Duration::from_secs(10))).ok();
+                s.write_all(&wire).map_err(|e| e.to_string())?;
+                s.shutdown(std::net::Shutdown::Write).ok();
+                let mut back = Vec::new();
+                s.read_to_end(&mut back).map_err(|e| format!("reading responses: {e}"))?;
+                let (fr, rest) = frames::split_stream(&back)?;
+                if rest != 0 {
+                    return Err(format!("{rest} trailing bytes of an incomplete frame"));
+                }
+                Ok(fr)
+            }
+            PathKind::AsyncMem => {
+                let rt = self.rt.as_ref().unwrap();
+                let tx = self.mem_tx.as_ref().unwrap();
+                rt.block_on(async {
+                    let (server_end, client_end, ctl) = memstream::pair();
+                    tx.send(Box::new(server_end)).map_err(|_| "listener gone".to_string())?;
+                    ctl.b_to_a.push(&wire);
+                    ctl.b_to_a.close();
+                    memstream::settle().await;
+                    let back = ctl.a_to_b.take();
+                    drop(client_end);
+                    let (fr, rest) = frames::split_stream(&back)?;
+                    if rest != 0 {
+                        return Err(format!("{rest} trailing bytes of an incomplete frame"));
+                    }
+                    Ok(fr)
+                })
+            }
+            PathKind::WebSocket => {
+                let rt = self.rt.as_ref().unwrap();
+                let shared = self.shared.as_ref().unwrap();
+                rt.block_on(async {
+                    let mut c = wsh::connect(shared, Serve::Plain, None).await;
+                    for f in frames_out {
+                        c.send_frame(f).await?;
+                    }
+                    let mut got = Vec::new();
+                    // wait for the predicted number of responses (off-reader handlers
+                    // answer asynchronously), then close and collect anything extra
+                    while got.len() < expect_n {
+                        match c.next(Duration::from_secs(10)).await {
+                            Got::Frame(f) => got.push(f),
+                            Got::Nothing => break,
+                            other => return Err(format!("unexpected websocket event {other:?}")),
+                        }
+                    }
+                    let _ = c.send_raw(tokio_tungstenite::tungstenite::Message::Close(None)).await;
+                    loop {
+                        match c.next(Duration::from_secs(10)).await {
+                            Got::Frame(f) => got.push(f),
+                            Got::Close | Got::End(_) => break,
+                            Got::Nothing => return Err("server did not close after Close".into()),
+                            other => return Err(format!("unexpected websocket event {other:?}")),
+                        }
+                    }
+                    let _ = tokio::time::timeout(Duration::from_secs(10), c.server).await;
+                    Ok(got)
+                })
+            }
+        }
+    }
+}
+
+// ------------------------------------------------------------------ oracle
+
+#[derive(Default)]
+pub struct Tally {
+    pub pipelines: u64,
+    pub requests: u64,
+    pub responses: u64,
+    pub by_class: BTreeMap<String, u64>,
+    pub multi_inflight: u64,
+}
+
+/// Returns violations (key, what) for one pipeline on one endpoint.
+pub fn check_pipeline(ep: &Endpoint, letters: &[&Letter], tally: &mut Tally, reference: &mut BTreeMap<String, (u32, Vec<u8>, u16, Vec<u8>)>) -> Vec<(String, String)> {
+    let mut bad = Vec::new();
+    let frames_out: Vec<Frame> = letters.iter().enumerate().map(|(i, l)| l.frame(1000 + i as u64)).collect();
+    let expect_n = letters.iter().filter(|l| !l.notify).count();
+    let before = ep.counters.snapshot();
+    let got = match ep.exchange(&frames_out, expect_n) {
+        Ok(g) => g,
+        Err(e) => {
+            bad.push((format!("C03:exchange-failed:{}", ep.kind.name()), format!("{e}; pipeline {:?}", letters.iter().map(|l| l.name).collect::<Vec<_>>())));
+            return bad;
+        }
+    };
+    // handler counters may lag for off-reader notifies: wait (bounded) for the model's counts
+    let mut want: BTreeMap<&'static str, u64> = before.clone();
+    for l in letters {
+        if let Some(r) = l.runs {
+            if !r.is_empty() {
+                *want.get_mut(r).unwrap() += 1;
+            }
+        }
+        if l.dispatched {
+            *want.get_mut("middleware").unwrap() += 1;
+        }
+    }
+    let deadline = std::time::Instant::now() + Duration::from_secs(2);
+    let mut after = ep.counters.snapshot();
+    while after != want && std::time::Instant::now() < deadline {
+        std::thread::sleep(Duration::from_millis(1));
+        after = ep.counters.snapshot();
+    }
+    let names: Vec<&str> = letters.iter().map(|l| l.name).collect();
+    let ctx = format!("[{}] pipeline {:?}", ep.kind.name(), names);
+    if after != want {
+        let diff: Vec<String> = want.iter().filter(|(k, v)| after[*k] != **v).map(|(k, v)| format!("{k}: expected +{} got +{}", v - before[k], after[k] - before[k])).collect();
+        bad.push((format!("C03:handler-invocations:{}", diff.first().map(|d| d.split(':').next().unwrap_or("")).unwrap_or("")), format!("{ctx}: handler invocation counts differ: {diff:?}")));
+    }
+    tally.pipelines += 1;
+    tally.requests += letters.len() as u64;
+    tally.responses += got.len() as u64;
+    if expect_n >= 2 {
+        tally.multi_inflight += 1;
+    }
+    // exactly one response per non-notify request, matched by id
+    let mut by_id: BTreeMap<u64, Vec<&Frame>> = BTreeMap::new();
+    for f in &got {
+        by_id.entry(f.h.id).or_default().push(f);
+    }
+    for (i, l) in letters.iter().enumerate() {
+        let id = 1000 + i as u64;
+        let rs = by_id.remove(&id).unwrap_or_default();
+        if l.notify {
+            if !rs.is_empty() {
+                bad.push(("C03:notify-answered".into(), format!("{ctx}: notify request #{i} ({}) produced {} response(s)", l.name, rs.len())));
+            }
+            continue;
+        }
+        if rs.len() != 1 {
+            bad.push((format!("C03:response-count:{}", rs.len().min(2)), format!("{ctx}: request #{i} ({}) got {} responses", l.name, rs.len())));
+            continue;
+        }
+        let r = rs[0];
+        *tally.by_class.entry(format!("ec={}", r.h.ec)).or_insert(0) += 1;
+        if r.h.notify != 0 {
+            bad.push(("C03:response-flag".into(), format!("{ctx}: response to #{i} has the notify flag set")));
+        }
+        match l.ec {
+            Some(code) if r.h.ec != code => bad.push((format!("C03:error-code:{}", l.name), format!("{ctx}: request #{i} ({}) answered with error code {}, expected {code}; body {:?}", l.name, r.h.ec, String::from_utf8_lossy(&r.body)))),
+            None if r.h.ec == 0 => bad.push((format!("C03:error-code:{}", l.name), format!("{ctx}: request #{i} ({}) answered with success, expected an error", l.name))),
+            _ => {}
+        }
+        let want_q: &[u8] = l.resp_query.as_deref().unwrap_or(&l.path);
+        if r.query != want_q {
+            bad.push(("C03:response-query".into(), format!("{ctx}: response to #{i} ({}) carries query {:?}, expected {:?}", l.name, String::from_utf8_lossy(&r.query), String::from_utf8_lossy(want_q))));
+        }
+        if let Some(b) = &l.resp_body {
+            if r.h.ec == 0 && &r.body != b {
+                bad.push((format!("C03:response-body:{}", l.name), format!("{ctx}: response to #{i} ({}) has body {:?}, expected {:?}", l.name, String::from_utf8_lossy(&r.body), String::from_utf8_lossy(b))));
+            }
+        }
+        // same request -> same response fields on every transport (handlers are deterministic)
+        let fields = (r.h.ec, r.query.clone(), r.h.body_format, r.body.clone());
+        match reference.get(l.name) {
+            Some(prev) if *prev != fields && l.name != "registry/write" => {
+                bad.push((format!("C03:transport-divergence:{}", l.name), format!("{ctx}: response fields for {} differ from another transport/pipeline: (ec {}, query {:?}, format {}, body {:?}) vs (ec {}, query {:?}, format {}, body {:?})", l.name, r.h.ec, String::from_utf8_lossy(&r.query), r.h.body_format, String::from_utf8_lossy(&r.body), prev.0, String::from_utf8_lossy(&prev.1), prev.2, String::from_utf8_lossy(&prev.3))));
+            }
+            Some(_) => {}
+            None => {
+                reference.insert(l.name.to_string(), fields);
+            }
+        }
+    }
+    for (id, rs) in by_id {
+        bad.push(("C03:unsolicited-response".into(), format!("{ctx}: {} frame(s) with id {id} that no request used", rs.len())));
+    }
+    // arrival order for requests handled inline on the connection
+    let inline_expected: Vec<u64> = letters.iter().enumerate().filter(|(_, l)| !l.notify && !(ep.kind == PathKind::WebSocket && l.off_reader)).map(|(i, _)| 1000 + i as u64).collect();
+    let inline_got: Vec<u64> = got.iter().map(|f| f.h.id).filter(|id| inline_expected.contains(id)).collect();
+    if inline_got != inline_expected && inline_got.len() == inline_expected.len() {
+        bad.push(("C03:inline-order".into(), format!("{ctx}: inline responses arrived as {inline_got:?}, requests were sent as {inline_expected:?}")));
+    }
+    bad
+}
+
+// ------------------------------------------------------------------ driver
+
+pub fn run(tier: Tier) -> ! {
+    let ctx = Ctx::new("C03", tier);
+    let alpha = alphabet();
+    let n = alpha.len();
+    let kinds = [PathKind::BlockingTcp, PathKind::AsyncTcp, PathKind::AsyncMem, PathKind::WebSocket];
+    // pipelines: singles, ordered pairs, then (thorough) triples over a sub-alphabet and long pipelines
+    let mut pipelines: Vec<Vec<usize>> = Vec::new();
+    for i in 0..n {
+        pipelines.push(vec![i]);
+    }
+    for i in 0..n {
+        for j in 0..n {
+            pipelines.push(vec![i, j]);
+        }
+    }
+    let sub: Vec<usize> = ["json/ok", "json/malformed-body", "json/handler-error", "version/0", "path/unknown", "custom/own-query", "jsonb/ok", "notify/json/ok", "notify/path/unknown", "notify/jsonb/ok", "registry/call", "slice/ok"]
+        .iter()
+        .map(|name| alpha.iter().position(|l| l.name == *name).unwrap())
+        .collect();
+    let tri: &[usize] = if tier == Tier::Thorough { &sub } else { &sub[..9] };
+    for &a in tri {
+        for &b in tri {
+            for &c in tri {
+                pipelines.push(vec![a, b, c]);
+            }
+        }
+    }
+    // long pipelines: each letter repeated to 64, and each pair at both ends of 64 echoes
+    let echo = alpha.iter().position(|l| l.name == "json/ok").unwrap();
+    for i in 0..n {
+        pipelines.push(vec![i; 64]);
+    }
+    if tier == Tier::Thorough {
+        for &a in &sub {
+            for &b in &sub {
+                let mut p = vec![a];
+                p.extend(std::iter::repeat_n(echo, 62));
+                p.push(b);
+                pipelines.push(p);
+            }
+        }
+    }
+    let samples = Samples::new(4);
+    // the servers log every connection that ends at EOF to stderr; silence that while sweeping
+    let saved_stderr = unsafe { libc::dup(2) };
+    unsafe {
+        let devnull = libc::open(c"/dev/null".as_ptr(), libc::O_WRONLY);
+        if devnull >= 0 {
+            libc::dup2(devnull, 2);
+            libc::close(devnull);
+        }
+    }
+    let results: Vec<(PathKind, Tally, Vec<(String, String, Vec<usize>)>)> = std::thread::scope(|s| {
+        let hs: Vec<_> = kinds
+            .iter()
+            .map(|&kind| {
+                let alpha = &alpha;
+                let pipelines = &pipelines;
+                s.spawn(move || {
+                    let ep = Endpoint::start(kind);
+                    let mut tally = Tally::default();
+                    let mut reference = BTreeMap::new();
+                    let mut bad_all = Vec::new();
+                    for p in pipelines {
+                        if bad_all.len() >= 24 {
+                            // enough counterexamples on this path; the run is a violation anyway
+                            break;
+                        }
+                        let letters: Vec<&Letter> = p.iter().map(|i| &alpha[*i]).collect();
+                        for (k, w) in check_pipeline(&ep, &letters, &mut tally, &mut reference) {
+                            if bad_all.len() < 200 {
+                                bad_all.push((k, w, p.clone()));
+                            }
+                        }
+                    }
+                    (kind, tally, bad_all, reference)
+                })
+            })
+            .collect();
+        let mut out = Vec::new();
+        let mut refs: Vec<(PathKind, BTreeMap<String, (u32, Vec<u8>, u16, Vec<u8>)>)> = Vec::new();
+        for h in hs {
+            let (kind, tally, bad, reference) = h.join().unwrap();
+            refs.push((kind, reference));
+            out.push((kind, tally, bad));
+        }
+        // cross-transport comparison of the reference responses
+        let (k0, r0) = &refs[0];
+        for (k, r) in &refs[1..] {
+            for (name, fields) in r0 {
+                if name == "registry/write" {
+                    continue;
+                }
+                if let Some(other) = r.get(name) {
+                    if other != fields {
+                        out[0].2.push((
+                            format!("C03:transport-divergence:{name}"),
+                            format!("response fields for {name} differ between {} and {}: (ec {}, body {:?}) vs (ec {}, body {:?})", k0.name(), k.name(), fields.0, String::from_utf8_lossy(&fields.3), other.0, String::from_utf8_lossy(&other.3)),
+                            vec![],
+                        ));
+                    }
+                }
+            }
+        }
+        out
+    });
+    unsafe {
+        if saved_stderr >= 0 {
+            libc::dup2(saved_stderr, 2);
+            libc::close(saved_stderr);
+        }
+    }
+    let mut total = Tally::default();
+    let mut per_path = Vec::new();
+    for (kind, t, bad) in &results {
+        for (k, w, p) in bad {
+            ctx.violation(k.clone(), w.clone(), json!({"path_kind": kind.name(), "pipeline": p, "letters": p.iter().map(|i| alpha[*i].name).collect::<Vec<_>>()}));
+        }
+        total.pipelines += t.pipelines;
+        total.requests += t.requests;
+        total.responses += t.responses;
+        total.multi_inflight += t.multi_inflight;
+        for (k, v) in &t.by_class {
+            *total.by_class.entry(k.clone()).or_insert(0) += v;
+        }
+        per_path.push(json!({"path": kind.name(), "pipelines": t.pipelines, "requests": t.requests, "responses": t.responses}));
+    }
+    if !ctx.has_violation() && (total.by_class.len() < 6 || total.multi_inflight == 0) {
+        ctx.machinery("vacuous exploration: fewer than 6 response classes or no multi-request pipeline");
+    }
+    samples.offer(|| json!({"pipeline": ["json/ok", "notify/jsonb/ok", "version/0"], "meaning": "three frames written in one burst on one connection"}));
+    samples.offer(|| json!({"letter": "query/not-utf8", "request": format!("{:?}", alpha.iter().find(|l| l.name == "query/not-utf8").unwrap().frame(1000))}));
+    let coverage = json!({
+        "states": pipelines.len() as u64 * kinds.len() as u64,
+        "transitions": total.requests,
+        "traces_validated_against_impl": total.pipelines,
+        "samples": samples.take(),
+        "exhaustive": true,
+        "alphabet": alpha.iter().map(|l| l.name).collect::<Vec<_>>(),
+        "letters": n,
+        "bound": {"singles": n, "ordered_pairs": n * n, "triples_over": tri.len(), "repeat_64": n, "pair_around_62_echoes": if tier == Tier::Thorough { sub.len() * sub.len() } else { 0 }},
+        "dispatch_paths": per_path,
+        "nonvacuity": {"responses_by_error_code": total.by_class, "pipelines_with_2plus_responses": total.multi_inflight, "responses": total.responses, "requests": total.requests},
+        "rule": "every pipeline (all letters, all ordered pairs, triples over a sub-alphabet, each letter x64, pairs around 62 echoes) is written in one burst on a fresh connection of each dispatch path (blocking TCP, async TCP, async over memstream, WebSocket with inline and off-reader routes); all frames received until the server closes are matched by id against the model; handler and middleware invocation counters are compared per pipeline",
+    });
+    ctx.finish(
+        "model_checking",
+        coverage,
+        &[
+            "handlers are deterministic functions of the request (needed for the cross-transport comparison)",
+            "TCP paths use real loopback sockets: the pipeline is written, the write side half-closed, and everything until EOF is read (10 s watchdog)",
+            "on the WebSocket path the harness waits for the predicted number of responses before sending Close, then collects anything extra",
+        ],
+    )
+}
+
+pub fn replay(case: &Value) -> Result<(), String> {
+    let alpha = alphabet();
+    let kind = match case["path_kind"].as_str().unwrap_or("") {
+        "blocking-tcp" => PathKind::BlockingTcp,
+        "async-tcp" => PathKind::AsyncTcp,
+        "async-mem" => PathKind::AsyncMem,
+        _ => PathKind::WebSocket,
+    };
+    let p: Vec<usize> = case["pipeline"].as_array().ok_or("pipeline")?.iter().map(|v| v.as_u64().unwrap_or(0) as usize).collect();
+    let ep = Endpoint::start(kind);
+    let letters: Vec<&Letter> = p.iter().map(|i| &alpha[*i]).collect();
+    let mut tally = Tally::default();
+    let mut reference = BTreeMap::new();
+    let bad = check_pipeline(&ep, &letters, &mut tally, &mut reference);
+    if bad.is_empty() { Ok(()) } else { Err(bad.into_iter().map(|(k, w)| format!("{k}: {w}")).collect::<Vec<_>>().join("\n")) }
+}
+
+#[allow(dead_code)]
+fn _unused(_: &MessageView) {}
